@@ -518,6 +518,7 @@ pub fn run(ctx: &mut Ctx) {
         }
     }
     reader_suite(ctx);
+    super::c01_stored::run(ctx);
 }
 
 fn gen_case(sub: u64) -> (u8, bool, Vec<Op>) {
@@ -531,6 +532,7 @@ fn gen_case(sub: u64) -> (u8, bool, Vec<Op>) {
 }
 
 fn replay(ctx: &mut Ctx, case: &[String]) {
+    if super::c01_stored::replay(ctx, case) { return; }
     match case.first().map(|s| s.as_str()) {
         Some("hist") => {
             let sub: u64 = case[1].parse().unwrap();
